@@ -290,6 +290,9 @@ def run(prog, chk):
             chk.fail("R3.6", fn, "fresh-params-in-nested-context", "%s starts from default_exec_params() at %s: it is not a reviewed top-level entry point, so an enclosing "
                      "errexit-exempt context is forgotten" % (fn, b.loc(t.line)))
 
+    exemption_only_set_rule(prog, chk)
+    undefined_through_policy_rule(prog, chk)
+
     # ---- R3.5 nounset table -------------------------------------------------------------------------------------
     chk.rule("R3.5", "ParameterExpr variant → expand_parameter (strict) / expand_parameter_allowing_unset (tolerant) equals the "
                      "reference table; undefined_expansion raises fatal ExpandingUnsetVariable only when not tolerant")
@@ -337,3 +340,61 @@ def run(prog, chk):
                 chk.fail("R3.5", ub.name, "undefined_expansion-guards", "the unset-variable error is not exclusive to (!allow_unset_vars && treat_unset_variables_as_error) or is not fatal")
         else:
             chk.fail("R3.5", ub.name, "undefined_expansion-anchors", "ExpandingUnsetVariable/into_fatal/allow_unset_vars/option test missing: %s %s %s %s" % (len(aggs), len(fatal), len(allow), len(opt)))
+
+
+def exemption_only_set_rule(prog, chk):
+    """R3.7: the errexit-exemption flag only ever gets *set*. It is inherited by cloning the parameters (R3.6) and switched on for the
+    exempt contexts (R3.1/R3.2); nothing may store `false` into ExecutionParameters.suppress_errexit — that would drop the exemption for
+    whatever runs below (`if x=$(false; echo survived); …` under inherit_errexit)."""
+    chk.rule("R3.7", "every store to ExecutionParameters.suppress_errexit stores the constant true (the exemption is inherited, never cleared)")
+    n = 0
+    for b in prog.all_bodies(SHIPPED):
+        d = None
+        for bb, i, st in field_stores(b, "interp::ExecutionParameters", "suppress_errexit"):
+            n += 1
+            d = d or defs_of(b)
+            fn = owner(b.name)
+            cv = const_value(b, d, st.rv.ops[0]) if st.rv.ops else None
+            if cv == 1:
+                chk.ok("R3.7", "sets-exemption@" + fn.split(" as ")[0].lstrip("<").rsplit("::", 1)[-1], "stores true", function=fn)
+            elif cv == 0:
+                chk.fail("R3.7", fn, "exemption-cleared", "%s stores false into suppress_errexit (%s): an enclosing errexit-exempt context is forgotten for everything executed "
+                         "with these parameters" % (fn, b.loc(b.blocks[bb].term.line)))
+            else:
+                # a copied value: must derive from another suppress_errexit
+                og = origins(b, d, st.rv.ops[0], through_ops=True) if st.rv.ops else []
+                if any("suppress_errexit" in o.field_path() for o in og):
+                    chk.ok("R3.7", "copies-exemption@" + fn.rsplit("::", 1)[-1], "copies the flag from other parameters", function=fn)
+                else:
+                    chk.fail("R3.7", fn, "exemption-computed", "%s stores a computed value into suppress_errexit (%s)" % (fn, b.loc(b.blocks[bb].term.line)))
+    chk.floor("R3.7", "stores to suppress_errexit", n, 4)
+
+
+def undefined_through_policy_rule(prog, chk):
+    """R3.8: an expansion that finds no value goes through WordExpander::undefined_expansion, the one place that applies nounset
+    (fatal ExpandingUnsetVariable unless the operator tolerates unset). Expansion::undefined() — the "no value" result — has that function
+    as its only caller; a parameter arm that builds the result itself (for a missing array element, say) silently skips `set -u`."""
+    chk.rule("R3.8", "Expansion::undefined() is constructed only inside WordExpander::undefined_expansion (the nounset policy point)")
+    callers = sorted({owner(b.name) for b, bb, t in prog.callers_of("brush_core::expansion::Expansion::undefined", crates=SHIPPED)})
+    chk.floor("R3.8", "callers of Expansion::undefined", len(callers), 1)
+    for fn in callers:
+        if fn == EXPANDER + "::undefined_expansion":
+            chk.ok("R3.8", "policy-point", "undefined_expansion builds the undefined result after consulting nounset", function=fn)
+        else:
+            chk.fail("R3.8", fn, "undefined-result-bypasses-nounset",
+                     "%s builds Expansion::undefined() itself instead of calling undefined_expansion: under `set -u` the missing value expands to empty and the script "
+                     "goes on — `set -u; a=(x); echo ${a[5]}` no longer aborts" % fn)
+    # and direct struct construction with undefined: true elsewhere
+    for b in prog.all_bodies({"brush_core"}):
+        fn = owner(b.name)
+        if fn in (EXPANDER + "::undefined_expansion", "brush_core::expansion::Expansion::undefined") or "expansion" not in fn:
+            continue
+        d = None
+        for bl in b.blocks:
+            for st in bl.stmts:
+                if st.kind == 'a' and st.rv.kind == 'agg' and (st.rv.adt or "").endswith("expansion::Expansion"):
+                    names = st.rv.raw.get("fn") or []
+                    if "undefined" in names:
+                        d = d or defs_of(b)
+                        if const_value(b, d, st.rv.ops[names.index("undefined")]) == 1:
+                            chk.fail("R3.8", fn, "undefined-literal-bypasses-nounset", "%s constructs Expansion { undefined: true, .. } outside undefined_expansion" % fn)
